@@ -653,18 +653,18 @@ func H_C13_live_validators() {
 }
 
 // embedded structs and embedded pointers (nil and non-nil), with rules on the promoted fields' types
-type vC13Base struct {
+type VC13Base struct {
 	ID string `valid:"required"`
 }
 
 type vC13Emb struct {
-	*vC13Base
+	*VC13Base
 	vC13Inner
 	Name string `valid:"required"`
 }
 
 type vC13EmbMarked struct {
-	*vC13Base `valid:"exist"`
+	*VC13Base `valid:"exist"`
 	vC13Inner `valid:"required"`
 }
 
@@ -674,7 +674,7 @@ func H_C13_embedded() {
 	case 0:
 		vC13Call("Struct(embedded nil pointer)", func() { _ = Struct(&vC13Emb{Name: n}) })
 	case 1:
-		vC13Call("Struct(embedded pointer set)", func() { _ = Struct(&vC13Emb{vC13Base: &vC13Base{ID: n}, Name: "x"}) })
+		vC13Call("Struct(embedded pointer set)", func() { _ = Struct(&vC13Emb{VC13Base: &VC13Base{ID: n}, Name: "x"}) })
 	case 2:
 		vC13Call("Struct(embedded nil pointer, marked)", func() { _ = Struct(&vC13EmbMarked{vC13Inner: vC13Inner{N: n, M: 1}}) })
 	case 3:
